@@ -385,8 +385,12 @@ class PrimaiteGame:
                 new_node.power_on()
 
             # set start up and shut down duration
-            new_node.config.start_up_duration = int(node_cfg.get("start_up_duration", 3))
-            new_node.config.shut_down_duration = int(node_cfg.get("shut_down_duration", 3))
+            new_node.config.start_up_duration = int(
+                node_cfg.get("start_up_duration", defaults_config.get("node_start_up_duration", 3))
+            )
+            new_node.config.shut_down_duration = int(
+                node_cfg.get("shut_down_duration", defaults_config.get("node_shut_down_duration", 3))
+            )
 
         # 1.1 Create Node Sets
         for node_set_cfg in node_sets_cfg:
